@@ -72,11 +72,23 @@ func translationsFor(reg *template.Registry) *fakeBundle {
 	return b
 }
 
+// translationsEmptying is translationsFor with one message in seven translated into nothing at all (a translation with
+// nothing in it is a translation too).
+func translationsEmptying(reg *template.Registry) *fakeBundle {
+	b := translationsFor(reg)
+	for id := range b.msgs {
+		if id%7 == 0 {
+			b.msgs[id] = soymsg.NewMessage(id, "")
+		}
+	}
+	return b
+}
+
 // translationsWithPlurals is translationsFor plus plural messages: two forms (the fake bundle picks form 0 for n = 1, form 1
 // otherwise), each the wrapped text of the {case 1} / {default} body. For renders by the Go backend (the generated
 // JavaScript would need a plural selector in the runtime).
 func translationsWithPlurals(reg *template.Registry) *fakeBundle {
-	b := translationsFor(reg)
+	b := translationsEmptying(reg)
 	braced := func(body ast.ParentNode) (string, bool) {
 		var sb strings.Builder
 		for _, c := range body.Children() {
